@@ -299,6 +299,27 @@ impl Rig {
                     }
                 }
             }
+            Aux::SendReady(ch) => {
+                // no credit deadlock: the consumer has taken every item that was sent, so its
+                // Receiver holds at least one unit of granted capacity again (it tops up whenever
+                // its credit falls to the low-water mark), the broker passes grants on (C05, broker
+                // level), hence the producer cannot be out of credit
+                let cookie = cc.snd[ch as usize].with(|e| (matches!(e, SndEnd::Est(_)), e.cookie().0));
+                if let Some((true, cookie)) = cookie {
+                    let board = w.board.borrow();
+                    let Some(info) = board.chans.get(&cookie) else { return Ok(()) };
+                    if info.binds > 1 || info.claim_attempts > 1 || info.rcv_cap == 0 {
+                        return Ok(());
+                    }
+                    let sent = board.sent.get(&cookie).copied().unwrap_or(0);
+                    let received = board.received.get(&cookie).copied().unwrap_or(0);
+                    // the receiving end is established on a live client
+                    let rcv_live = w.clients.iter().enumerate().any(|(i, c)| alive(i) && c.rcv.iter().any(|s| s.with(|e| matches!(e, RcvEnd::Est(_)) && e.cookie().0 == cookie).unwrap_or(false)));
+                    if rcv_live && sent == received {
+                        return Err(fail("pending-stream:send_ready-although-consumer-took-every-item", self.detail(&format!("at quiescence task t{} waits in send_ready on channel {} although the consumer has received all {} items sent (receiver capacity {}): the sender's credit was lost", t.id, cookie, sent, info.rcv_cap))));
+                    }
+                }
+            }
             Aux::Aborted(nonce) => {
                 // the caller's application dropped the pending reply: with both sides on >= 1.16
                 // the abort reaches the callee, whose aborted() must have resolved by now - unless
